@@ -1,4 +1,5 @@
 import NitroVerif.Lemmas.OptResult
+import NitroVerif.Generated.PosIndex
 import NitroVerif.Model.Opt
 
 /-!
@@ -105,5 +106,54 @@ theorem parse_after_separator (d : Decl) (hn : (allNames d).Nodup) (env : Env) (
   subst hex
   rw [hpos]
   simp [positionalsOf, List.filterMap_map, Function.comp_def]
+
+/-- The index arithmetic of `arguments::get(int)` as it is in the header now (`Generated/PosIndex.lean`, rewritten on
+every run: 32-bit signed index, `i += (int) size` when negative, sign-extending conversion to `size_type`), evaluated
+on bit vectors, addresses the same element as the model's unbounded `argGet` - or lies outside the list exactly when
+`argGet` has no answer (`at()` raises) - for every list of fewer than 2^31 positionals and every `int`. -/
+theorem source_index_bits (n : Nat) (i : Int) (hn : n < 2^31) (h1 : -2^31 ≤ i) (h2 : i < 2^31) :
+    let idx := Generated.getIndexSrc (BitVec.ofNat 64 n) (BitVec.ofInt 32 i)
+    let j := if i < 0 then i + n else i
+    (j < 0 → n ≤ idx.toNat) ∧ (0 ≤ j → idx.toNat = j.toNat) := by
+  intro idx j
+  have hi : (BitVec.ofInt 32 i).toInt = i := by
+    rw [BitVec.toInt_ofInt, Int.bmod_def]; split <;> omega
+  have hs : BitVec.slt (BitVec.ofInt 32 i) (0#32) = decide (i < 0) := by
+    simp [BitVec.slt, hi]
+  have hsz : (BitVec.setWidth 32 (BitVec.ofNat 64 n)).toInt = n := by
+    rw [BitVec.toInt_eq_toNat_bmod]; simp [BitVec.toNat_ofNat]
+    rw [Int.bmod_def]; split <;> omega
+  by_cases hneg : i < 0
+  · have hj : j = i + n := by simp [j, hneg]
+    have hadd : (BitVec.ofInt 32 i + BitVec.setWidth 32 (BitVec.ofNat 64 n)).toInt = i + n := by
+      rw [BitVec.toInt_add, hi, hsz, Int.bmod_def]; split <;> omega
+    have hidx : idx = BitVec.signExtend 64 (BitVec.ofInt 32 i + BitVec.setWidth 32 (BitVec.ofNat 64 n)) := by
+      simp [idx, Generated.getIndexSrc, hs, hneg]
+    have htoInt : idx.toInt = i + n := by
+      rw [hidx, BitVec.toInt_signExtend_of_le (by omega)]; exact hadd
+    rw [BitVec.toInt_eq_toNat_cond] at htoInt
+    have := idx.isLt
+    constructor <;> intro h <;> split at htoInt <;> omega
+  · have hj : j = i := by simp [j, hneg]
+    have hidx : idx = BitVec.signExtend 64 (BitVec.ofInt 32 i) := by
+      simp [idx, Generated.getIndexSrc, hs, hneg]
+    have htoInt : idx.toInt = i := by
+      rw [hidx, BitVec.toInt_signExtend_of_le (by omega)]; exact hi
+    rw [BitVec.toInt_eq_toNat_cond] at htoInt
+    have := idx.isLt
+    constructor <;> intro h <;> split at htoInt <;> omega
+
+/-- **The model's index access is the source's**: `argGet` (unbounded integers) returns exactly what
+`positionals_.at(<the translated index expression>)` returns, and has no answer exactly when `at()` raises. -/
+theorem model_index_is_source (pos : List Str) (i : Int) (hn : pos.length < 2^31) (h1 : -2^31 ≤ i) (h2 : i < 2^31) :
+    Generated.posIndexExtracted = true ∧
+    argGet pos i = pos[(Generated.getIndexSrc (BitVec.ofNat 64 pos.length) (BitVec.ofInt 32 i)).toNat]? := by
+  refine ⟨rfl, ?_⟩
+  obtain ⟨a, b⟩ := source_index_bits pos.length i hn h1 h2
+  simp only [argGet]
+  by_cases hj : (if i < 0 then i + (pos.length : Int) else i) < 0
+  · rw [if_pos hj, List.getElem?_eq_none (a hj)]
+  · rw [if_neg hj, b (by omega)]
+
 
 end NitroVerif.Props.C12
